@@ -439,4 +439,226 @@ example :
     Tree1ToksP.sec ob [] inner [] _ [] rfl rfl (InstToksP.cons inner [] _ [] 0 0 1 hz InstToksP.nil) Tree1ToksP.nil
   exact Tree1ToksP.sec oa [] outer [] _ [] rfl rfl (InstToksP.cons outer [] _ [] 0 0 1 hb InstToksP.nil) Tree1ToksP.nil
 
+/-! ## byte level: scanning at any indentation, any depth -/
+
+/-- what the printing side provides for an option list in `Q`: printed at any indentation `j`, in front of any `rest` and
+after any pending newlines, it scans to tokens in `P` and leaves pending newlines -/
+def LexBody (env : Env) (Q : List Opt → Prop) (P : List Opt → List (Tok × Nat) → Prop) : Prop :=
+  ∀ (j : Nat) (os : List Opt) (k : Nat) (rest : Bytes), Q os →
+    ∃ ts k', P os ts ∧ LexSteps env (List.replicate k c_nl ++ (printOpts none j os ++ rest)) ts (List.replicate k' c_nl ++ rest)
+
+/-- **one printed section instance scans to its tokens**: name, `{`, the body's tokens, `}` -/
+theorem lex_instance_gen (env : Env) {Q : List Opt → Prop} {P : List Opt → List (Tok × Nat) → Prop} (hlb : LexBody env Q P)
+    (name : Bytes) (s : Cfg) (j k : Nat) (tail : Bytes) (h0 : ∀ c ∈ name, c ≠ 0) (hpf : s.info.pff = none) (hq : Q s.opts) :
+    ∃ body n1 n3, P s.opts body ∧
+      LexSteps env (List.replicate k c_nl ++ (indentBytes j ++ printName name ++ [c_sp, c_lbr, c_nl] ++ printCfg none (j + 1) s ++
+                      indentBytes j ++ [c_rbr, c_nl] ++ tail))
+        ([(.str name, n1), (.lbrace, 0)] ++ body ++ [(.rbrace, n3)]) (List.replicate 1 c_nl ++ tail) := by
+  have hcfg : printCfg none (j + 1) s = printOpts none (j + 1) s.opts := by
+    cases s with
+    | mk info opts => have := hpf; simp only [Cfg.info] at this; simp [printCfg, this, effPff, Cfg.opts]
+  obtain ⟨body, k', hb, sb⟩ := hlb (j + 1) s.opts 1 (indentBytes j ++ c_rbr :: c_nl :: tail) hq
+  obtain ⟨n1, e1⟩ := C05_name env name (c_lbr :: c_nl :: (printOpts none (j + 1) s.opts ++ (indentBytes j ++ c_rbr :: c_nl :: tail))) c_sp k h0 (Or.inl rfl)
+  refine ⟨body, n1, k', hb, ?_⟩
+  have shape : indentBytes j ++ printName name ++ [c_sp, c_lbr, c_nl] ++ printCfg none (j + 1) s ++ indentBytes j ++ [c_rbr, c_nl] ++ tail =
+      List.replicate (2 * j) c_sp ++ (printName name ++ c_sp :: c_lbr :: c_nl :: (printOpts none (j + 1) s.opts ++ (indentBytes j ++ c_rbr :: c_nl :: tail))) := by
+    rw [hcfg]; simp [indentBytes]
+  rw [shape]
+  -- the name
+  refine LexSteps.cons _ (.str name) n1 _ _ _ (by rw [lex_lead, lex_spaces]; exact e1) rfl ?_
+  -- the opening brace
+  refine LexSteps.cons _ .lbrace 0 _ _ _ (by rw [lex_sp]; exact lex_lbr env 0 _) rfl ?_
+  -- the body, then the closing brace
+  have sb' : LexSteps env (c_nl :: (printOpts none (j + 1) s.opts ++ (indentBytes j ++ c_rbr :: c_nl :: tail))) body
+      (List.replicate k' c_nl ++ (indentBytes j ++ c_rbr :: c_nl :: tail)) := by simpa using sb
+  refine LexSteps.append sb' ?_
+  refine LexSteps.one (t := .rbrace) (nl := k') ?_ rfl
+  rw [lex_lead]
+  show lexInitial env k' (List.replicate (2 * j) c_sp ++ c_rbr :: c_nl :: tail) = _
+  rw [lex_spaces]
+  simpa using lex_rbr env k' (c_nl :: tail)
+
+/-- **all printed instances of an untitled section option scan to their tokens** -/
+theorem lex_insts_gen (env : Env) {Q : List Opt → Prop} {P : List Opt → List (Tok × Nat) → Prop} (hlb : LexBody env Q P) (o : Opt) (j : Nat) (ht : o.flags.title = false) (h0 : ∀ c ∈ o.name, c ≠ 0) :
+    ∀ (cs : List Cfg) (k : Nat) (tail : Bytes), (∀ c ∈ cs, c.info.pff = none ∧ Q c.opts) →
+    ∃ ts k', InstToksP P o.name cs ts ∧
+      LexSteps env (List.replicate k c_nl ++ (printVals o none j (cs.map Val.sec) ++ tail)) ts (List.replicate k' c_nl ++ tail) := by
+  intro cs
+  induction cs with
+  | nil => intro k tail _; exact ⟨[], k, InstToksP.nil, by simpa [printVals] using LexSteps.nil _⟩
+  | cons c cs ih =>
+    intro k tail hall
+    obtain ⟨ts2, k', h2, s2⟩ := ih 1 tail (fun x hx => hall x (by simp [hx]))
+    obtain ⟨body, n1, n3, hb, s1⟩ := lex_instance_gen env hlb o.name c j k (printVals o none j (cs.map Val.sec) ++ tail) h0 (hall c (by simp)).1 (hall c (by simp)).2
+    refine ⟨[(.str o.name, n1), (.lbrace, 0)] ++ body ++ [(.rbrace, n3)] ++ ts2, k', InstToksP.cons c cs body ts2 n1 0 n3 hb h2, ?_⟩
+    have e : printVals o none j ((c :: cs).map Val.sec) ++ tail =
+        indentBytes j ++ printName o.name ++ [c_sp, c_lbr, c_nl] ++ printCfg none (j + 1) c ++ indentBytes j ++ [c_rbr, c_nl] ++
+          (printVals o none j (cs.map Val.sec) ++ tail) := by
+      simp [printVals, ht]
+    rw [e]
+    exact LexSteps.append s1 s2
+
+/-- a section option the byte-level theorem covers (printing side): untitled, not annotated, every instance without a
+print filter and with options in `Q` -/
+structure PrintableSecP (Q : List Opt → Prop) (o : Opt) : Prop where
+  ty : o.ty = .sec
+  notitle : o.flags.title = false
+  noComment : o.comment = none
+  name0 : ∀ c ∈ o.name, c ≠ 0
+  insts : ∃ cs : List Cfg, o.vals = cs.map Val.sec ∧ ∀ c ∈ cs, c.info.pff = none ∧ Q c.opts
+
+theorem print_sec_indent {Q : List Opt → Prop} (o : Opt) (j : Nat) (hp : PrintableSecP Q o) : printOpt none j o = printVals o none j o.vals := by
+  obtain ⟨info, fl, subs, vals, cm⟩ := o
+  have h1 := hp.ty; have h2 := hp.noComment
+  simp only [Opt.ty, Opt.info, Opt.comment] at h1 h2
+  subst h2
+  simp [printOpt, h1, Opt.vals]
+
+/-- **an option list whose sections have bodies in `Q` scans, at any indentation, to the token relation over `P`** -/
+theorem lex_tree1_gen (env : Env) {Q : List Opt → Prop} {P : List Opt → List (Tok × Nat) → Prop} (hlb : LexBody env Q P) :
+    LexBody env (fun os => ∀ o ∈ os, (o.ty ≠ .sec ∧ Printable o) ∨ PrintableSecP Q o) (Tree1ToksP P) := by
+  intro j os
+  induction os with
+  | nil => intro k rest _; exact ⟨[], k, Tree1ToksP.nil, by simpa [printOpts] using LexSteps.nil _⟩
+  | cons o os ih =>
+    intro k rest hall
+    have e : printOpts none j (o :: os) ++ rest = printOpt none j o ++ (printOpts none j os ++ rest) := by
+      simp [printOpts, hides]
+    rw [e]
+    rcases hall o (by simp) with ⟨hns, hp⟩ | hp
+    · obtain ⟨ts1, h1, s1⟩ := lex_opt env o k (printOpts none j os ++ rest) hp
+      obtain ⟨ts2, k', h2, s2⟩ := ih 1 rest (fun x hx => hall x (by simp [hx]))
+      refine ⟨ts1 ++ ts2, k', Tree1ToksP.plain o os ts1 ts2 hns h1 h2, ?_⟩
+      rw [printOpt_indent o j hp]
+      have : indentBytes j ++ printOpt none 0 o ++ (printOpts none j os ++ rest) =
+          List.replicate (2 * j) c_sp ++ (printOpt none 0 o ++ (printOpts none j os ++ rest)) := by simp [indentBytes]
+      rw [this]
+      exact LexSteps.append (lexSteps_indent env k (2 * j) _ ts1 _ (optToks_ne_nil h1) s1) s2
+    · obtain ⟨cs, hv, hcs⟩ := hp.insts
+      rw [print_sec_indent o j hp, hv]
+      cases cs with
+      | nil =>
+        obtain ⟨ts2, k', h2, s2⟩ := ih k rest (fun x hx => hall x (by simp [hx]))
+        exact ⟨ts2, k', Tree1ToksP.secNone o os ts2 hp.ty (by simpa using hv) h2, by simpa [printVals] using s2⟩
+      | cons c cs =>
+        obtain ⟨ts1, k1, h1, s1⟩ := lex_insts_gen env hlb o j hp.notitle hp.name0 (c :: cs) k (printOpts none j os ++ rest) hcs
+        obtain ⟨ts2, k', h2, s2⟩ := ih k1 rest (fun x hx => hall x (by simp [hx]))
+        exact ⟨ts1 ++ ts2, k', Tree1ToksP.sec o os c cs ts1 ts2 hp.ty hv h1 h2, LexSteps.append s1 s2⟩
+
+/-- what can be printed and scanned back, to nesting depth `d` -/
+def PrintableT : Nat → List Opt → Prop
+  | 0 => fun os => ∀ o ∈ os, Printable o
+  | d + 1 => fun os => ∀ o ∈ os, (o.ty ≠ .sec ∧ Printable o) ∨ PrintableSecP (PrintableT d) o
+
+/-- **the printed text of a configuration of any depth scans, at any indentation, to its tokens** -/
+theorem lex_tree (env : Env) : ∀ d, LexBody env (PrintableT d) (TreeToks d) := by
+  intro d
+  induction d with
+  | zero => exact fun j os k rest hq => lex_opts_indent env j os k rest hq
+  | succ d ih => exact lex_tree1_gen env ih
+
+theorem instToksP_no_rparen {P : List Opt → List (Tok × Nat) → Prop} (hP : ∀ os ts, P os ts → ∀ t ∈ ts, t.1 ≠ .rparen)
+    {name : Bytes} {cs : List Cfg} {ts : List (Tok × Nat)} (h : InstToksP P name cs ts) : ∀ t ∈ ts, t.1 ≠ .rparen := by
+  induction h with
+  | nil => intro t ht; cases ht
+  | cons c cs body ts' n1 n2 n3 hb _ ih =>
+    intro t ht
+    simp only [List.mem_append, List.mem_cons, List.not_mem_nil, or_false] at ht
+    rcases ht with ((((rfl | rfl) | hb') | rfl) | ht')
+    · simp
+    · simp
+    · exact hP _ _ hb t hb'
+    · simp
+    · exact ih t ht'
+
+theorem tree1ToksP_no_rparen {P : List Opt → List (Tok × Nat) → Prop} (hP : ∀ os ts, P os ts → ∀ t ∈ ts, t.1 ≠ .rparen)
+    {os : List Opt} {ts : List (Tok × Nat)} (h : Tree1ToksP P os ts) : ∀ t ∈ ts, t.1 ≠ .rparen := by
+  induction h with
+  | nil => intro t ht; cases ht
+  | plain o os ts1 tss _ h1 _ ih =>
+    intro t ht
+    rcases List.mem_append.mp ht with h | h
+    · exact optToks_no_rparen h1 t h
+    · exact ih t h
+  | secNone o os tss _ _ _ ih => exact ih
+  | sec o os c cs ts1 tss _ _ h1 _ ih =>
+    intro t ht
+    rcases List.mem_append.mp ht with h | h
+    · exact instToksP_no_rparen hP h1 t h
+    · exact ih t h
+
+theorem treeToks_no_rparen : ∀ d os ts, TreeToks d os ts → ∀ t ∈ ts, t.1 ≠ .rparen := by
+  intro d
+  induction d with
+  | zero => exact fun os ts h => flatToks_no_rparen h
+  | succ d ih => exact fun os ts h => tree1ToksP_no_rparen ih h
+
+/-- **C05 (configurations of any depth, byte level).** For every nesting depth `d`: print a configuration `c` built from
+plain integer / boolean / string options, untitled multi sections with any number of instances and single sections,
+nested in one another to depth `d` - no callbacks, annotations or print filters - and parse the printed text with
+`cfg_parse_buf` into ANY context `c0` with the same declarations at every level (multi sections still empty, single
+sections holding their instance, names distinct under the case rule): the parse is accepted, and every plain option at
+every depth holds exactly the printed values, every section option at every depth exactly the printed instances, in
+order.  Bytes, indentation, scanner, parse loop, token machine with its frame stack: all inside the statement. -/
+theorem C05_tree_roundtrip (orc : Oracle) (pe : PEnv) (d : Nat) (c c0 : Cfg)
+    (hpff : c.info.pff = none) (hpr : PrintableT d c.opts)
+    (hal : AlignedT d c0.flags.nocase c.opts c0.opts) :
+    (parseBuf orc pe c0 (cfgPrint c)).rc = 0 ∧
+    SameValsT d (parseBuf orc pe c0 (cfgPrint c)).cfg.opts c.opts := by
+  have htext : cfgPrint c = printOpts none 0 c.opts := by
+    cases c with
+    | mk info opts => simp only [Cfg.info] at hpff; simp [cfgPrint, printCfg, hpff, effPff, Cfg.opts]
+  obtain ⟨ts, k', hft, hlex⟩ := lex_tree pe.env d 0 c.opts 0 [] hpr
+  simp only [List.replicate_zero, List.nil_append, List.append_nil] at hlex
+  let c1 := (c0.setFilename (some bufName)).setLine 1
+  have hopts1 : c1.opts = c0.opts := by cases c0; rfl
+  have hfl1 : c1.flags = c0.flags := by cases c0; rfl
+  let f0 : Frame := { cfg := c1 }
+  let m0 : PM := startPM c1 (cfgPrint c) 0
+  have hat0 : AtItem f0 := ⟨rfl, rfl, by intro r o hr _; simp [f0] at hr⟩
+  obtain ⟨f', done, md, e1, hat', _, hlev', _, hopts', _, hvals⟩ :=
+    C05_tree_steps orc d c.opts c0.opts ts m0 f0 [] hft (by show AlignedT d c1.flags.nocase _ _; rw [hfl1]; exact hal) rfl rfl hat0 rfl hopts1
+  rw [← htext] at hlex
+  obtain ⟨hrc, ho, _⟩ := accept_of_steps orc pe c0 (cfgPrint c) ts k' f' md hlex (treeToks_no_rparen d _ _ hft) e1 hat' hlev'
+  refine ⟨hrc, ?_⟩
+  rw [ho, hopts']
+  exact hvals
+
+/-- non-vacuity: `i=7` and one instance `n { z=5 }`, printed and parsed into a context declared alike, meets the premises
+of `C05_tree_roundtrip` at depth 1 -/
+example :
+    let inst : Cfg := Cfg.mk { name := [110] } [Opt.mk { name := [122], ty := .int } {} [] [.int 5] none]
+    let c : Cfg := Cfg.mk { name := [114] }
+      [Opt.mk { name := [105], ty := .int } {} [] [.int 7] none,
+       Opt.mk { name := [110], ty := .sec } { multi := true } [Decl.mk { name := [122], ty := .int } {} []] [.sec inst] none]
+    let c0 : Cfg := Cfg.mk { name := [114] }
+      [Opt.mk { name := [105], ty := .int } {} [] [.int 1] none,
+       Opt.mk { name := [110], ty := .sec } { multi := true } [Decl.mk { name := [122], ty := .int } {} []] [] none]
+    c.info.pff = none ∧ PrintableT 1 c.opts ∧ AlignedT 1 c0.flags.nocase c.opts c0.opts := by
+  intro inst c c0
+  have hz : Printable (Opt.mk { name := [122], ty := .int } {} [] [.int 5] none) :=
+    ⟨Or.inl rfl, rfl, rfl, by decide, by intro v hv; simp [Opt.vals] at hv; subst hv; decide, fun _ => ⟨_, rfl⟩⟩
+  have hi : Printable (Opt.mk { name := [105], ty := .int } {} [] [.int 7] none) :=
+    ⟨Or.inl rfl, rfl, rfl, by decide, by intro v hv; simp [Opt.vals] at hv; subst hv; decide, fun _ => ⟨_, rfl⟩⟩
+  refine ⟨rfl, ?_, ?_, ?_⟩
+  · intro o ho
+    simp only [c, Cfg.opts, List.mem_cons, List.not_mem_nil, or_false] at ho
+    rcases ho with rfl | rfl
+    · exact Or.inl ⟨by decide, hi⟩
+    · exact Or.inr ⟨rfl, rfl, rfl, by decide, [inst], rfl, by
+        intro x hx; simp at hx; subst hx
+        exact ⟨rfl, by intro o ho; simp [inst, Cfg.opts] at ho; subst ho; exact hz⟩⟩
+  · refine All2.cons (Or.inl ⟨by decide, rfl, rfl, rfl, ⟨Or.inl rfl, rfl, rfl, rfl, rfl, ⟨by decide, by decide⟩, rfl⟩⟩)
+      (All2.cons (Or.inr (Or.inl ⟨rfl, rfl, ?_, rfl, ?_⟩)) All2.nil)
+    · exact ⟨⟨rfl, rfl⟩, rfl, rfl, rfl, rfl, ⟨by decide, by decide⟩⟩
+    · intro x hx ci
+      simp [Opt.vals] at hx
+      subst hx
+      refine ⟨?_, by simp [NamesDistinct, inst, Cfg.opts]⟩
+      have hn : ∀ si, (mkOpt si (Decl.mk { name := [122], ty := .int } {} [])).name = [122] := fun _ => rfl
+      refine All2.cons ⟨rfl, rfl, rfl, ⟨Or.inl rfl, rfl, rfl, rfl, rfl, ?_, rfl⟩⟩ All2.nil
+      rw [hn]; exact ⟨by decide, by decide⟩
+  · simp [NamesDistinct, c, Cfg.opts, titleEq, Opt.name, Opt.info]
+    decide
+
 end Confuse
